@@ -131,7 +131,7 @@ def _(self: Ref['mqtt.client.base.MQTTBaseProtocol']):
 @contract('mqtt.client.base.MQTTBaseProtocol.doDisconnect', props=['C18', 'C02'])
 def _(self: Ref['mqtt.client.base.MQTTBaseProtocol'], request: Ref['mqtt.pdu.DISCONNECT']):
     requires(isa(self.transport, 'Transport') and is_list_bytes(self.transport.tr_out) and is_int(self.transport.tr_closes))
-    modifies(self.transport.tr_out, self.transport.tr_closes, request.encoded)
+    modifies(self.transport.tr_out, self.transport.tr_closes, request.encoded, self.g_sent_disconnect)
     ensures(is_list_bytes(self.transport.tr_out) and out(self) == old(out(self)) + lb(sDISCONNECT()))
     ensures(is_int(self.transport.tr_closes) and self.transport.tr_closes == old(self.transport.tr_closes) + 1)
 
@@ -157,7 +157,7 @@ def _(self: Ref['mqtt.client.base.MQTTBaseProtocol'], request: Ref['mqtt.pdu.CON
     requires(connect_typed(request) and is_unset(request.alarm) and is_unset(request.deferred))
     requires(is_ref(self.CONNECTING))
     modifies(self._cleanStart, self._version, self.transport.tr_out, self.state, request.alarm, request.deferred,
-             request.encoded, self.connReq, allocates())
+             request.encoded, self.connReq, self.g_sent_connect, allocates())
     ensures(is_bool(result.d_fired) and is_list_bytes(self.transport.tr_out))
     # refused up front: failed Deferred, nothing written, no timer, state unchanged
     ensures(implies(connect_rejected(request), result.d_fired and not result.d_ok and is_exc(result.d_val)
